@@ -9,13 +9,18 @@ Engine libmc (harness/libmc16.cpp, asan variant): bounded exhaustive exploration
     union-find, ReverseCuthillMcKee perm / invp;
   * Envelope set / copy / cholDec / lowerSolve / diagonalSolve / upperSolve /
     solve / inverse (also in place) vs a dense long double LDL' of the
-    permuted normal matrix A'A for three small integer value families; zero
+    permuted normal matrix A'A for three small integer value families x four
+    scales of the coefficients (1, 1e3, 1e-2, 1e-5; cholDec() with the default
+    tolerance at scale 1, cholDec(sqrt(eps) * scale^2) otherwise); zero
     pivots exactly at the columns that exact integer elimination finds
     dependent on their predecessors; defect() = exact nullity; inverse entries
     inside the envelope = dense g-inverse;
   * all block layouts (compositions of n<=5) x all band widths x 2 value
     families x choice of non positive definite blocks: BlockDiagonal::cholDec
     return value and factor, replicate, UpperBlockDiagonal, Envelope(BlockDiagonal);
+    the positive definite layouts also as Envelope at four scales of the
+    matrix (1, 1e6, 1e-4, 1e-10) with the scaled tolerance: factor, defect,
+    solve, inverse against the dense results;
   * Homogenization of all 0/1 patterns of an m x 2 design matrix for all
     layouts of dimension m<=4 (thorough 5): inv(U')A, inv(U')b.
 """
@@ -31,8 +36,11 @@ EXTRA = ("-fsanitize-recover=nonnull-attribute",)
 ENV = dict(vlib.ASAN_ENV, UBSAN_OPTIONS="print_stacktrace=0:halt_on_error=0:exitcode=98")
 
 RULE = ("every unit enumerates its finite family completely: all 0/1 patterns of every shape r x c (sparse build / transpose / "
-        "replicate, column graph, connectivity, ordering, envelope kernels for 3 value families), all block layouts x band widths x "
-        "value families x non-positive-definite block choices, all (layout, m x 2 pattern) pairs for the homogenization; a state = one "
+        "replicate, column graph, connectivity, ordering, envelope kernels for 3 value families x 4 coefficient scales {1, 1e3, 1e-2, 1e-5} "
+        "with the pivot tolerance of cholDec scaled by the caller (default argument at scale 1, sqrt(eps)*scale^2 otherwise): set, copies, "
+        "factor, zero pivots, defect, all partial solve ranges, solve and inverse (also in place) judged at unit scale against the dense "
+        "long double LDL' / g-inverse of the same permuted integer normal matrix), all block layouts x band widths x "
+        "value families x non-positive-definite block choices (positive definite layouts: Envelope cholDec / solve / inverse at the 4 scales as well), all (layout, m x 2 pattern) pairs for the homogenization; a state = one "
         "enumerated pattern or layout, a transition = one library operation executed and compared with the dense reference; "
         "non-trivial = every configuration")
 
@@ -67,7 +75,8 @@ def main():
     ck.counters["distinct_nontrivial"] = ck.counters.get("states", 0)
     th = ck.tier == "thorough"
     ck.finish(RULE, assumptions=[
-        "patterns up to %s; values 1, +-1 by parity, 1..3 by position (exact integer normal matrices, pivots >= 1e-5 or exactly 0, far from the 1.5e-8 pivot tolerance)" % ("5x4" if th else "4x4"),
+        "patterns up to %s; values 1, +-1 by parity, 1..3 by position, times the scale (exact integer normal matrices at unit scale: pivots >= 1e-5 * scale^2 or 0 up to rounding, far from the pivot tolerance 1.5e-8 * scale^2 on both sides; at scale 1e-5 every regular pivot lies between the given tolerance and the default one)" % ("5x4" if th else "4x4"),
+        "cholDec tolerances other than the default and sqrt(eps)*scale^2, and pivots within a factor 1e3 of the tolerance, are outside the family",
         "block layouts: dimension <= 5, diagonally dominant value families; non positive definite blocks by a zero first pivot, a negative last pivot, a dominant off-diagonal element",
         "upperSolve is compared for ranges 1..stop only (the only use in gama; with start > 1 it writes before the caller's buffer by construction)",
         "SparseMatrix::replicate into a matrix with more rows/columns is not covered; network level <connected-network/> belongs to the netmc engine",
